@@ -33,7 +33,7 @@ RULE = ("cases are drawn from random.Random(VERIF_SEED).  hosvd: dense data of o
 ASSUMPTIONS = [
     "scipy.linalg.eigh returns orthonormal eigenpairs of the symmetric matrix it is given (Tk.EighContract; checked on every recorded call: symmetry, |V'V - I| <= 1e-10, |ZV - VD| <= 1e-9 |Z|; satisfiable: C10_contracts_satisfiable)",
     "tensor.nvecs returns r orthonormal columns spanning a dominant eigenspace of the Gram matrix of the unfolding (Tk.NvecsContract / Tk.NvecsLeading; checked on every recorded call against numpy eigvalsh: captured energy >= top-r energy - 1e-8 trace)",
-    "Ky Fan's maximum principle (the sum of the r largest eigenvalues of a symmetric matrix is the maximum of trace(Q'ZQ) over orthonormal Q) is an explicit hypothesis of C10_tucker_fit_monotone_partial, not proved here; all other theorems, including the full HOSVD error bound, are unconditional given the service contracts",
+    "Ky Fan's maximum principle is PROVED (C10_ky_fan, bridged from C14's ky_fan_list in Lemmas/TuckerKyFan.lean), so C10_tucker_fit_monotone is unconditional given the nvecs service contracts (orthonormal columns; eigenvectors for the r largest eigenvalues of the Gram matrix it is given)",
     "the theorems speak about successful runs of the model; C10_hosvd_accepts / C10_tucker_accepts show that valid requests are accepted (hosvd: all-automatic with tol^2 < 1 on non-zero data, or all ranks given; tucker_als: order >= 2)",
     "tensor.ttm and to_tenmat enter the model by their entry-wise meaning (tied to the real methods by the exact integer family `dense_ops`; the code-level equivalence is C02 / C01)",
     "IEEE rounding is not modelled: whole runs are replayed by the model at Float with the recorded service outputs and compared at relative 1e-9; the reported fit is compared through its square (1 - fit)^2, because sqrt(|a - b|) amplifies rounding when the fit is (nearly) exact",
@@ -783,7 +783,7 @@ class TuckerTrace(Family):
 
     name = "tucker_trace"
     theorems = ("C10_tucker_orthonormal", "C10_tucker_core", "C10_tucker_fit", "C10_tucker_iters_le",
-                "C10_tucker_fit_monotone_partial", "C10_tucker_accepts")
+                "C10_tucker_fit_monotone", "C10_tucker_accepts")
     malformed = False
 
     def problem(self, rng, tier, nmin=2):
@@ -1117,7 +1117,7 @@ class TuckerMonotone(TuckerTrace):
     (one Float replay of the longest run) reproduce the fit of every shorter run."""
 
     name = "tucker_monotone"
-    theorems = ("C10_tucker_fit_monotone_partial", "C10_tucker_iters_le")
+    theorems = ("C10_tucker_fit_monotone", "C10_tucker_iters_le")
 
     def gen(self, rng, tier):
         out = []
